@@ -280,16 +280,19 @@ func (db *Database) Ensure(sch *schema.Schema) {
 			panic(e)
 		}
 	}()
-	ovs := db.buildIndexes(sch.Table, sch.Columns, newIdxs)
+	bts := db.buildIndexes(sch.Table, sch.Columns, newIdxs)
 	db.RunEndExclusive(sch.Table, func() {
 		db.UpdateState(func(state *DbState) {
 			_, meta := state.Meta.Ensure(sch, db.Store) // final run
 			// now meta and table info are copies
-			if ovs != nil {
+			if bts != nil {
 				// add newly created indexes
 				ti := meta.GetRoInfo(sch.Table) // not actually read-only
-				i := len(ti.Indexes) - len(ovs)
-				copy(ti.Indexes[i:], ovs)
+				i := len(ti.Indexes) - len(bts)
+				nlayers := ti.Indexes[0].Nlayers() // of the latest state
+				for j, bt := range bts {
+					ti.Indexes[i+j] = index.OverlayForN(bt, nlayers)
+				}
 			}
 			state.Meta = meta
 		})
@@ -353,8 +356,12 @@ func (db *Database) RunExclusive(table string, fn func()) {
 
 // buildIndexes creates the new btrees & overlays when there is existing data.
 // It is used by Ensure and AlterCreate.
+//
+// It returns the new btrees. The overlays are created
+// inside the final UpdateState, because the number of layers must match
+// the latest state (a merge may be applied while the indexes are being built).
 func (db *Database) buildIndexes(table string,
-	newCols []string, newIdxs []schema.Index) []*index.Overlay {
+	newCols []string, newIdxs []schema.Index) []*btree.T {
 	if len(newIdxs) == 0 {
 		return nil
 	}
@@ -377,7 +384,6 @@ func (db *Database) buildIndexes(table string,
 	nold := len(ts.Indexes)
 	ts.Indexes = append(ts.Indexes, newIdxs...)
 	newIdxs = ts.SetupNewIndexes(nold)
-	nlayers := ti.Indexes[0].Nlayers()
 	list := sortlist.NewSorting(func(x uint64) bool { return x == 0 },
 		MakeLess(db.Store, &newIdxs[0].Ixspec))
 	iter := rt.IndexIter(table, 0) // read first index (preexisting)
@@ -386,7 +392,7 @@ func (db *Database) buildIndexes(table string,
 		list.Add(off)
 	}
 	list.Finish()
-	ovs := make([]*index.Overlay, len(newIdxs))
+	bts := make([]*btree.T, len(newIdxs))
 	for i := range newIdxs {
 		ix := &newIdxs[i]
 		fk := &ix.Fk
@@ -415,10 +421,9 @@ func (db *Database) buildIndexes(table string,
 				}
 			}
 		}
-		bt := bldr.Finish()
-		ovs[i] = index.OverlayForN(bt, nlayers)
+		bts[i] = bldr.Finish()
 	}
-	return ovs
+	return bts
 }
 
 // MakeLess handles _lower! but not rules.
@@ -497,16 +502,19 @@ func (db *Database) AlterCreate(sch *schema.Schema) {
 	}()
 	// buildIndexes is potentially slow (if there's a lot of data)
 	// so we don't want to do it inside UpdateState
-	ovs := db.buildIndexes(sch.Table, sch.Columns, sch.Indexes)
+	bts := db.buildIndexes(sch.Table, sch.Columns, sch.Indexes)
 	db.RunEndExclusive(sch.Table, func() {
 		db.UpdateState(func(state *DbState) {
 			meta := state.Meta.AlterCreate(sch, db.Store)
 			// now meta and table info are copies
-			if ovs != nil {
+			if bts != nil {
 				// add newly created indexes
 				ti := meta.GetRoInfo(sch.Table) // not really read-only
-				i := len(ti.Indexes) - len(ovs)
-				copy(ti.Indexes[i:], ovs)
+				i := len(ti.Indexes) - len(bts)
+				nlayers := ti.Indexes[0].Nlayers() // of the latest state
+				for j, bt := range bts {
+					ti.Indexes[i+j] = index.OverlayForN(bt, nlayers)
+				}
 			}
 			state.Meta = meta
 		})
